@@ -207,8 +207,8 @@ func (k Keeper) SendToNewVestingAccount(ctx sdk.Context, owner string, toAddr st
 	vestingPool.Sent = vestingPool.Sent.Add(amount)
 	vt, vErr := k.GetVestingType(ctx, vestingPool.VestingType)
 	if vErr != nil {
-		k.Logger(ctx).Debug("send to new vesting account get vesting type error", "owner", owner, "vestingPool", vestingPool, "error", err.Error())
-		return withdrawn, sdkerrors.Wrap(types.ErrGetVestingType, sdkerrors.Wrapf(err, "send to new vesting account - from addr: %s, vestingType %s", owner, vestingPool.VestingType).Error())
+		k.Logger(ctx).Debug("send to new vesting account get vesting type error", "owner", owner, "vestingPool", vestingPool, "error", vErr.Error())
+		return withdrawn, sdkerrors.Wrap(types.ErrGetVestingType, sdkerrors.Wrapf(vErr, "send to new vesting account - from addr: %s, vestingType %s", owner, vestingPool.VestingType).Error())
 	}
 	if restartVesting {
 		err = k.newVestingAccount(ctx, toAccAddress, amount, vt.Free,
